@@ -5,7 +5,7 @@ T = "Tinode.Props.C07."
 PROP = dict(
     id="C07",
     level_text="Kernel-checked Lean theorems: a non-subscriber or a user without S/A/O cannot touch another user's subscription; a sharer can only invite with the default access; an accepted change of somebody else's grant comes from an approver/owner, O only from the owner; a user's own request changes the own grant only by the owner's or a group administrator's self-raise (never adding O, the administrator never D); a previous grant is restored on re-subscription; {sub} and invitations at the subscriber limit are refused; peer-to-peer: every mode a p2p handler writes is within JRWPA and has A (the sanity mask, the modes initTopicP2P plans, a participant's own request, the other participant's grant and re-invitation), a user who is not cached in the topic cannot be subscribed to it, initTopicP2P caches exactly the two users of the topic's name, no {set sub} changes the set of participants, and a {sub} under the topic's routable name by somebody who is not one of the two is refused whatever the store holds and wherever a store call fails: nothing is stored, the session is attached to nothing, and a topic read into memory on the occasion has the two stored subscribers. Tied to the code by the differential world stream; the monitor attributes every change of a stored want/given to the acting user's mode.",
-    level_note='Group and peer-to-peer topics; the me/fnd and sys clauses (only their own user / only root) are outside the model. The p2p mode ceiling is proved per handler, given that the modes already stored are p2p modes; the lift to every reachable world is carried by the differential run and the monitor, not by an induction in Lean.',
+    level_note='Group and peer-to-peer topics. The clause for `me` / `fnd` (only their own user) is decided by the world stream - which includes a root session acting there on behalf of users - and the monitor rule [me-second-user], not by a theorem; the one for `sys` (only root) by sys_sub_root_only / sys_modes_within. The p2p mode ceiling is proved per handler, given that the modes already stored are p2p modes; the lift to every reachable world is carried by the differential run and the monitor, not by an induction in Lean.',
     technique='Lean 4 proof (decision functions, handler entry checks) + differential correspondence of the world model + history monitor',
     modules=["TinodeVerif.Props.C07", "TinodeVerif.Props.C07p", "TinodeVerif.Props.C07r", "TinodeVerif.Props.C03y"],
     theorems=[T + n for n in ['stranger_cannot_invite', 'sharer_cannot_set_mode', 'grant_change_needs_approver', 'default_invite_mode', 'grant_change_keeps_want', 'self_grant_change', 'admin_self_raise_excludes', 'resubscribe_restores_grant', 'sub_limit', 'invite_limit', 'p2pSan_mode', 'init_want_mode', 'self_mode_p2p', 'ownership_not_requested_p2p', 'self_want_p2p', 'grant_p2p', 'reinvite_given_mode', 'invite_want_default_within', 'invite_want_prev_within', 'no_third_participant', 'made_with_two', 'created_with_two', 'plan_modes', 'reload_restores_grant', 'evict_keeps_participants', 'self_keeps_participants', 'other_keeps_participants', 'setsub_keeps_participants', 'stranger_sub_store_unchanged', 'stranger_sub_not_attached', 'stranger_sub_refused', 'stranger_sub_loads_two', 'attached_participants', 'stranger_desc_refused']] + ["Tinode.Props.C03.sys_sub_root_only", "Tinode.Props.C03.sys_modes_within"],
